@@ -12,6 +12,7 @@ import SarpyModel.Drivers.Opener
 import SarpyModel.Drivers.Crsd
 import SarpyModel.Drivers.Proj
 import SarpyModel.Drivers.Lifecycle
+import SarpyModel.Drivers.XmlFmt
 namespace Sarpy.Drivers
 
 def step (line : String) : String :=
@@ -31,6 +32,7 @@ def step (line : String) : String :=
   | "crsd" :: rest => (crsdStep rest).getD "bad-op"
   | "proj" :: rest => (projStep rest).getD "bad-op"
   | "life" :: rest => (lifeStep rest).getD "bad-op"
+  | "xml" :: rest => (xmlStep rest).getD "bad-op"
   | _ => "bad-op"
 
 partial def loop (h : IO.FS.Stream) : IO Unit := do
